@@ -215,6 +215,14 @@ xTRSM(s); xTRSM(d); xTRSM(c)   ; xTRSM(z)   ;
 
 namespace boost::multi::blas {
 
+// BLAS demands a leading dimension of at least max(1, rows) even for a block with a single column (or none), where its
+// value is irrelevant; a view whose extent along a dimension is <= 1 can carry a smaller stride there (the transpose of
+// a contiguous n x 1 array has both strides equal to 1).
+template<class Stride, class Size>
+constexpr auto legal_ld(Stride stride, Size rows) -> Stride {
+	return stride < static_cast<Stride>(rows) ? static_cast<Stride>(rows) : stride;
+}
+
 // Boundary Checked value
 #define BC(value) [](auto checked) {assert(checked >= std::numeric_limits<INT>::min() && checked < std::numeric_limits<INT>::max()); return checked;}(value)  /*NOLINT(cppcoreguidelines-pro-bounds-array-to-pointer-decay,hicpp-no-array-decay)*/
 
